@@ -348,6 +348,32 @@ def r4_3(ctx: Ctx) -> None:
     ctx.floor("R4.3", "mutable default arguments", m, 5)
 
 
+RNG_FACTORIES = {"default_rng", "Random", "RandomState", "Generator", "SystemRandom"}
+
+
+def r4_3_generators(ctx: Ctx) -> None:
+    """A random generator built in a class body (as a plain field default) is built once, at import, and shared by every instance of
+    the class - pydantic copies field defaults only when they are unhashable, and a generator object is hashable.  Per-instance
+    generators come from `Field(default_factory=...)` or from __init__."""
+    ix = ctx.ix
+    n = 0
+    for c in sorted(ix.classes.values(), key=lambda k: k.qualname):
+        for nm, f in c.fields.items():
+            d = f.default
+            calls = [x for x in ast.walk(d) if isinstance(x, ast.Call)] if d is not None else []
+            rng = [x for x in calls if call_name(x) in RNG_FACTORIES]
+            if not rng:
+                continue
+            n += 1
+            in_factory = isinstance(d, ast.Call) and call_name(d) in ("Field", "PrivateAttr", "field") and any(
+                k.arg == "default_factory" and any(y is r for r in rng for y in ast.walk(k.value)) for k in d.keywords)
+            ctx.record("R4.3", f"{c.path}::{c.short}::random generator `{nm}` is built per instance", f"{c.path}:{f.node.lineno}", in_factory,
+                       "built by a default_factory (one generator per instance)" if in_factory else
+                       f"`{nm} = {unparse(d)[:60]}` is evaluated once when the class is defined: all instances - across episodes and "
+                       "environments - draw from one shared generator")
+    ctx.count("R4.3: class-level random generators", n)
+
+
 def r4_4(ctx: Ctx, rid: str = "R4.4") -> None:
     ix = ctx.ix
     ctx.rule(rid, "each episode gets its own scenario dict (schedulers return a fresh object)")
@@ -407,6 +433,7 @@ def check(ctx: Ctx) -> None:
     r4_1(ctx)
     r4_2(ctx)
     r4_3(ctx)
+    r4_3_generators(ctx)
     r4_4(ctx)
     r4_5(ctx)
     r4_6(ctx)
